@@ -17,7 +17,8 @@ def spec(tier, seed):
         corner, sizes = g.quick_sizes(seed, 4)
         sizes = [s for s in sizes] + [(9, 9), (10, 2)]
     else:
-        sizes = [s for s in g.all_sizes() if s[1] >= 2 and s[0] >= 1]
+        # all loop-structure classes with at most 200 samples (larger members of the grid cost > 15 min / > 8 GB each)
+        sizes = [s for s in g.all_sizes() if s[1] >= 2 and s[0] >= 1 and s[0] * s[1] <= 200]
         jobs.append(Job("deblock", "c09_twin_must_fail", 300, expect="fail", group="twin"))
     for (w, h) in sorted(set(sizes)):
         gen += g.instance("c09", w, h)
@@ -30,7 +31,7 @@ def spec(tier, seed):
         "rule": "kernels: A,B,C,D (2^32 patterns) x strength 1..12 x lane index all symbolic; whole image: image bytes, strength and the checked sample position (x,y) symbolic, sizes enumerated from 12 widths x 11 heights (quick: 2 fixed + seeded sample)",
         "bounds": ["kernel harnesses: no bound on values (all 2^32 x 12 x 8 lanes)",
                    "image harnesses: sizes " + ", ".join("%dx%d" % s for s in sorted(set(sizes))), "unwind 9 with unwinding assertions"],
-        "outside": ["image sizes not in the enumerated set (in particular widths/heights >= 20)", "strength outside 1..12 (excluded by the property)"],
+        "outside": ["image sizes not in the enumerated set (in particular widths/heights >= 20, and grid members with more than 200 samples such as 19x18)", "strength outside 1..12 (excluded by the property)"],
         "assumptions": ["Annex J oracle transcribed from H.263 (01/2005) J.3 with '/' truncating toward zero",
                         "intrinsic stubs implement the Intel SDM semantics", "rustc/Kani/CBMC are trusted"],
     }
